@@ -57,6 +57,11 @@ def run(ctx):
                                            max_exec=9000 if q else 120000) for i in range(len(progs))], maxw=12)
     xs += run_parallel([lambda i=i: explore(ctx, 'lr_rq_%d' % i, 'leftright', [progs[i]], mode='random', pb=5, runs=1500 if q else 6000)
                         for i in range(len(progs))], maxw=12)
+    # the smallest three-party programs COMPLETELY at preemption bound 3 (28 k / ~100 k executions): a reader in flight, a second reader stopped between
+    # reading the version index and arriving, the writer stopped inside its wait for the readers of that index (seeded change c13_6: an ingress / egress
+    # read indicator whose emptiness test reads the two counters in the wrong order)
+    small = ['lr;;update10;load;load', 'lr;;update10;load,load;load']
+    xs += run_parallel([lambda i=i: explore(ctx, 'lr_full3_%d' % i, 'leftright', [small[i]], mode='dfs', pb=3, max_exec=60000 if q else 400000) for i in range(len(small))], maxw=4)
     if not q:
         xs += run_parallel([lambda i=i: explore(ctx, 'lr_rnd_%d' % i, 'leftright', [progs[i]], mode='random', pb=6, runs=3000)
                             for i in range(len(progs))], maxw=12)
